@@ -310,11 +310,12 @@ pub fn state_line(ps: &PredSpec, s: &McState, verbose: bool) -> String {
     } else {
         let (x, k) = crash_info(s);
         format!(
-            "d={} core={} red={} eqp={} tr={} c={} v={} x={} k={} pb={}",
+            "d={} core={} red={} eqp={} pv={} tr={} c={} v={} x={} k={} pb={}",
             s.depth,
             fnv(&c_state_core(s)),
             fnv(&c_state_red(s)),
             fnv(&c_state_eqp(s)),
+            fnv(&c_state_pv(s)),
             fnv(&c_trace(&s.trace)),
             b01(e_collect(&ps.collect, s)),
             verdict_text(ps, s),
